@@ -86,6 +86,11 @@ res.append(case('wide-add-assign-big-constant', sub(base_ret,'h := uint64(cvss20
 res.append(case('wide-doubling', sub(base_ret,'h := uint64(cvss20.u0)\n\th = h + h\n\tif h == 7 {\n\t\timpact = 0\n\t}\n\t'+base_ret)))
 res.append(case('table-alias-write', sub(base_ret,'g := order[1]\n\tg[0] = "X"\n\t'+base_ret)))
 res.append(case('parser-struct-alias', lambda s: s.replace('\tpts := partsPtr.([]string)\n','\tpts := partsPtr.([]string)\n\tobj := CVSS20{}\n\tpo := &obj\n\t_ = po\n',1), mode='P'))
+# found by the false-pass audit of round 7
+res.append(case('local-named-like-table', sub(base_ret,'order := [][]string{{"X"}}\n\tif len(order[0][0]) == 1 && impact == 3 {\n\t\timpact = 0\n\t}\n\t'+base_ret)))
+res.append(case('local-named-like-sentinel', sub(base_ret,'var ErrInvalidMetricValue error\n\tif ErrInvalidMetricValue != nil {\n\t\timpact = 0\n\t}\n\t'+base_ret)))
+res.append(case('range-assigning-existing-variable', sub(base_ret,'hit := 0.0\n\tfor _, hit = range []float64{1} {\n\t}\n\tif hit == 1 {\n\t\timpact = 0\n\t}\n\t'+base_ret)))
+res.append(case('range-assigning-field', sub(base_ret,'for _, cvss20.u0 = range []uint8{1} {\n\t}\n\t'+base_ret)))
 shutil.rmtree(SCRATCH, ignore_errors=True)
 allok = all(r for r in res) and None not in res
 print('translator self-test:', 'ALL OK' if allok else 'FAILURES')
